@@ -243,6 +243,13 @@ def exec_check(h, r):
     return None
 
 
+def addr_of(c):
+    """the client's full source address as the kernel sees it: (local ip as a number, source port)"""
+    ip = (c.get("extra") or {}).get("local_ip", "127.0.0.1")
+    a, b, cc, d = [int(x) for x in ip.split(".")]
+    return "(%d, %d)" % (((a * 256 + b) * 256 + cc) * 256 + d, c["port"])
+
+
 def model_history(h, trace):
     """The history as a list of Coq op terms (R = record index, Q = request index) plus the prefix
     lengths at which the audit map was snapshotted.  Sequential: program order.  Concurrent: the
@@ -252,42 +259,42 @@ def model_history(h, trace):
     if not h["concurrent"]:
         for c in h["conns"]:
             if c["rec"] is not None and not c["pre"]:
-                ops.append("KRecord %d %d %d" % (c["id"], c["port"], c["rec"]))
-            ops.append("Lookup %d %d" % (c["id"], c["port"]))
-            ops.append("Remove %d %s" % (c["id"], "false" if c["fail"] else "true"))
+                ops.append("AKRecord %d %s %d" % (c["id"], addr_of(c), c["rec"]))
+            ops.append("ALookup %d %s" % (c["id"], addr_of(c)))
+            ops.append("ARemove %d %s" % (c["id"], "false" if c["fail"] else "true"))
             if c["nreq"] == 0 and not h.get("run_concurrent"):
                 cuts.append(len(ops))
             for j in range(c["nreq"]):
-                ops.append("Request %d %d" % (c["id"], j))
+                ops.append("ARequest %d %d" % (c["id"], j))
                 if j == 0 and not h.get("run_concurrent"):
                     cuts.append(len(ops))
                 if c["late"] and c["late"][0] == j:
                     # the kernel's write for the NEXT connection from this port (ghost tag = its id)
-                    ops.append("KRecord %d %d %d" % (c["id"] + 1, c["port"], c["late"][1]))
-            ops.append("Close %d" % c["id"])
+                    ops.append("AKRecord %d %s %d" % (c["id"] + 1, addr_of(next(k for k in h["conns"] if k["id"] == c["id"] + 1)), c["late"][1]))
+            ops.append("AClose %d" % c["id"])
     else:
         for c in h["conns"]:
             by_port[c["port"]] = c
             if c["rec"] is not None:
-                ops.append("KRecord %d %d %d" % (c["id"], c["port"], c["rec"]))
+                ops.append("AKRecord %d %s %d" % (c["id"], addr_of(c), c["rec"]))
         seen = set()
         for ev in trace:
             c = by_port.get(ev.get("port"))
             if c is None:
                 continue
             if ev["ev"] == "lookup":
-                ops.append("Lookup %d %d" % (c["id"], c["port"]))
+                ops.append("ALookup %d %s" % (c["id"], addr_of(c)))
                 seen.add(c["id"])
             elif ev["ev"] == "remove":
-                ops.append("Remove %d %s" % (c["id"], "false" if ev.get("failed") else "true"))
+                ops.append("ARemove %d %s" % (c["id"], "false" if ev.get("failed") else "true"))
         for c in h["conns"]:
             if c["id"] not in seen:      # the real run never looked this connection up: keep the model total
-                ops.append("Lookup %d %d" % (c["id"], c["port"]))
-                ops.append("Remove %d true" % c["id"])
+                ops.append("ALookup %d %s" % (c["id"], addr_of(c)))
+                ops.append("ARemove %d true" % c["id"])
         for c in h["conns"]:
             for j in range(c["nreq"]):
-                ops.append("Request %d %d" % (c["id"], j))
-            ops.append("Close %d" % c["id"])
+                ops.append("ARequest %d %d" % (c["id"], j))
+            ops.append("AClose %d" % c["id"])
     return ops, cuts
 
 
@@ -432,7 +439,7 @@ def run(ctx):
     ctx.log("implementation: %d histories run" % len(results))
 
     # ---------------- model ----------------
-    prelude = ("Definition ev (h : list (op N N)) (cuts : list nat) :=\n"
+    prelude = ("Definition ev (ah : list (aop N N)) (cuts : list nat) :=\n  let h := map proj ah in\n"
                "  (map (fun o => match o with Decided c r x => (c, r, x) end) (outs init h),\n"
                "   map fst (audit (final init h)),\n"
                "   map (fun n => map fst (audit (final init (firstn n h)))) cuts,\n"
@@ -442,7 +449,7 @@ def run(ctx):
     for h, r in zip(hs, results):
         ops, cuts = model_history(h, r.get("trace", []))
         exprs.append("ev [%s] [%s]" % ("; ".join(ops), "; ".join("%d%%nat" % c for c in cuts)))
-    model = vplib.coq_eval(ctx, "From GPA Require Import Accept.\nOpen Scope N_scope.", exprs, prelude=prelude, shard=60)
+    model = vplib.coq_eval(ctx, "From GPA Require Import Accept AcceptAddr.\nOpen Scope N_scope.", exprs, prelude=prelude, shard=60)
 
     # ---------------- compare + property ----------------
     disagreements, failures = [], []
